@@ -13,7 +13,8 @@ From Coq Require Import String Permutation.
 From Statham.Model Require Import Str Json Elem PyNum Validate Orderer Tables Repr Meta Annot Names.
 From Statham.Generated Require Gen_orderer_paths Gen_signatures.
 From Statham.Proofs Require Import StrFacts OrdererLoop Agree_orderer ReprProof MetaProof AnnotProof ImportsProof NamesProof ParseReplay.
-From Statham.Model Require Import Parser Plain2.
+From Statham.Model Require Import Parser Plain2 Equality ClsFrag.
+From Statham.Proofs Require Import JsonEqProof C01Parse C17Classes.
 Local Open Scope string_scope.
 Local Open Scope list_scope.
 
@@ -75,3 +76,14 @@ Proof. exact replay. Qed.
 Print Assumptions C02_reparse_same_class.
 Theorem C02_refl_state_checker : forall st, refl_stateb st = true -> refl_state st.
 Proof. exact refl_stateb_sound. Qed.
+
+(* (7) "each generated class is equal to, AND VALIDATES IDENTICALLY TO, the model obtained by parsing the schema directly":
+   the run establishes the equality (== both ways, on the executed module); that equal classes validate identically
+   is then a theorem - C17's congruence for trees with object classes (class names and bases are not compared by ==,
+   and do not matter) - on the fragment goodc (ClsFrag.goodcb: no float multipleOf, finding K17), up to crashes. *)
+Theorem C02_equal_classes_validate_identically : forall O generated parsed,
+  goodc generated -> goodc parsed -> elem_eq generated parsed = true ->
+  forall v, jwf v -> ncrash (build O generated (Some v)) -> ncrash (build O parsed (Some v)) ->
+  accepts O generated v = accepts O parsed v.
+Proof. intros O g p Gg Gp He v Hv N1 N2. exact (equal_same_verdict_classes O g p Gg Gp He v Hv N1 N2). Qed.
+Print Assumptions C02_equal_classes_validate_identically.
